@@ -15,7 +15,7 @@ Definition entry_ok (sets : list sset) (k : nat) (ns : oname * nat) : Prop :=
 Definition reg_ok (sets : list sset) (r : reg) : Prop := Forall (fun kd => Forall (entry_ok sets (fst kd)) (snd kd)) r.
 
 Definition set_ok (sigs : list (nat * nat)) (s : sset) : Prop :=
-  Forall (fun i => (i < length sigs)%nat /\ fst (nth i sigs (isig dummy_item)) = s_ty s) (s_items s).
+  Forall (fun i => (i < length sigs)%nat /\ fst (nth i sigs (isig dummy_item)) = s_ty s) (s_items s) /\ NoDup (s_items s).
 
 Record struct_ok (sigs : list (nat * nat)) (sets : list sset) (phys : reg) : Prop := {
   so_len : Forall sig_len_ok sigs;
@@ -37,10 +37,18 @@ Lemma inv_set_items st sid i :
 Proof.
   intros [_ Hs _] Hin. unfold set_at in *. fold dummy_set in *.
   destruct (Nat.lt_ge_cases sid (length (b_sets st))) as [Hlt|Hge].
-  - rewrite Forall_forall in Hs. specialize (Hs _ (nth_In _ dummy_set Hlt)). unfold set_ok in Hs. rewrite Forall_forall in Hs.
+  - rewrite Forall_forall in Hs. specialize (Hs _ (nth_In _ dummy_set Hlt)). unfold set_ok in Hs. destruct Hs as [Hs _]. rewrite Forall_forall in Hs.
     specialize (Hs i Hin). rewrite map_length in Hs. destruct Hs as [H1 H2]. split; [exact H1|].
     unfold item_at. rewrite <- H2. rewrite (map_nth isig). reflexivity.
   - rewrite nth_overflow in Hin by exact Hge. destruct Hin.
+Qed.
+
+Lemma inv_set_nodup st sid : Inv_struct st -> NoDup (s_items (set_at st sid)).
+Proof.
+  intros [_ Hs _]. unfold set_at. fold dummy_set.
+  destruct (Nat.lt_ge_cases sid (length (b_sets st))) as [Hlt|Hge].
+  - rewrite Forall_forall in Hs. apply (Hs _ (nth_In _ dummy_set Hlt)).
+  - rewrite nth_overflow by exact Hge. constructor.
 Qed.
 
 (* ---- states with the same signature ---- *)
@@ -100,7 +108,7 @@ Proof.
     split; [constructor; assumption|]. split; [exact H1|]. split; [exact H2 | reflexivity].
   - destruct Hi as [Hl Hs Hp]. unfold Inv_struct. cbn [b_items b_sets b_phys]. split; [|split; [|split; [|reflexivity]]].
     + constructor; [exact Hl | | ].
-      * apply Forall_app. split; [exact Hs|]. constructor; [constructor | constructor].
+      * apply Forall_app. split; [exact Hs|]. constructor; [split; constructor | constructor].
       * apply reg_insert_ok; [apply reg_ok_ext; exact Hp|]. unfold entry_ok. cbn [snd]. rewrite app_length, nth_middle. cbn. split; [lia | reflexivity].
     + rewrite app_length. cbn. lia.
     + unfold set_at. cbn [b_sets]. rewrite nth_middle. reflexivity.
@@ -109,7 +117,7 @@ Qed.
 (* ---- registration of a new item ---- *)
 Lemma set_ok_ext sigs s x : set_ok sigs s -> set_ok (sigs ++ [x]) s.
 Proof.
-  unfold set_ok. intros H. eapply Forall_impl; [|exact H]. intros i [H1 H2]. rewrite app_length, app_nth1 by exact H1. split; [lia | exact H2].
+  unfold set_ok. intros [H Hn]. split; [|exact Hn]. eapply Forall_impl; [|exact H]. intros i [H1 H2]. rewrite app_length, app_nth1 by exact H1. split; [lia | exact H2].
 Qed.
 
 Lemma Forall_upd {A} (P : A -> Prop) : forall (l : list A) n x, Forall P l -> P x -> Forall P (upd l n x).
@@ -132,12 +140,17 @@ Proof.
   - apply Forall_app. split; [exact Hl | constructor; [exact Hlen | constructor]].
   - apply Forall_upd.
     + eapply Forall_impl; [|exact Hs]. intros s. apply set_ok_ext.
-    + unfold set_ok. cbn [s_items s_ty]. apply Forall_app. split.
-      * unfold set_at. destruct (Nat.lt_ge_cases sid (length (b_sets st))) as [Hlt|Hge].
-        -- rewrite Forall_forall in Hs. specialize (Hs _ (nth_In _ dummy_set Hlt)). apply set_ok_ext with (x := isig it) in Hs. exact Hs.
-        -- unfold dummy_set in *. rewrite nth_overflow by exact Hge. constructor.
-      * constructor; [|constructor]. rewrite app_length, map_length. cbn [length]. split; [lia|].
+    + assert (Hsid : set_ok (map isig (b_items st)) (set_at st sid)).
+      { unfold set_at. destruct (Nat.lt_ge_cases sid (length (b_sets st))) as [Hlt|Hge].
+        - rewrite Forall_forall in Hs. exact (Hs _ (nth_In _ _ Hlt)).
+        - rewrite nth_overflow by exact Hge. split; constructor. }
+      destruct (set_ok_ext _ _ (isig it) Hsid) as [Hall Hnd]. destruct Hsid as [Hall0 _].
+      unfold set_ok. cbn [s_items s_ty]. split.
+      * apply Forall_app. split; [exact Hall|].
+        constructor; [|constructor]. rewrite app_length, map_length. cbn [length]. split; [lia|].
         rewrite app_nth2 by (rewrite map_length; lia). rewrite map_length, Nat.sub_diag. cbn [nth isig fst]. exact Hty.
+      * apply NoDup_app_snoc; [exact Hnd|]. intros Hin. rewrite Forall_forall in Hall0. destruct (Hall0 _ Hin) as [Hlt _].
+        rewrite map_length in Hlt. lia.
   - unfold reg_ok in *. eapply Forall_impl; [|exact Hp]. intros [k d] Hd. cbn [fst snd] in *.
     eapply Forall_impl; [|exact Hd]. intros ns [H1 H2]. unfold entry_ok. rewrite length_upd. split; [exact H1|].
     rewrite <- H2. apply nth_upd_ty. reflexivity.
